@@ -1,11 +1,13 @@
 import Driver.Ops
 import Driver.VMDrv
+import Driver.VMHist
 open Driver
 
 def dispatch (line : String) : String :=
   match line.splitOn "\t" with
   | "ops" :: args => handleOps args
   | "vm" :: args => handleVM args
+  | "vmhist" :: args => handleVMHist args
   | "skip" :: _ => "out=unsupported impl-only"
   | _ => "bad-op"
 
